@@ -18,6 +18,12 @@ for prop in sorted(os.listdir('/tmp/seed-out')):
         shutil.copy(os.path.join(d, 'patch.diff'), out)
         shutil.copy(os.path.join(d, 'demo.rs'), out)
         notes = open(os.path.join(d, 'notes.txt')).read() if os.path.exists(os.path.join(d, 'notes.txt')) else ''
+        if not notes and os.path.exists(os.path.join(d, 'meta.json')):
+            try:
+                am = json.load(open(os.path.join(d, 'meta.json')))
+                notes = '%s: %s' % (am.get('title', ''), am.get('description', ''))
+            except Exception:
+                pass
         meta_path = os.path.join(out, 'meta.json')
         meta = json.load(open(meta_path)) if os.path.exists(meta_path) else {}
         meta.update({
